@@ -250,3 +250,67 @@ def return_paths(fnode, skip_raising=True, max_paths=64):
     except TooMany:
         return None
     return out
+
+
+ORDER_CHANGING = {'sorted', 'sort', 'unique', 'set', 'frozenset', 'reversed', 'flip', 'flipud', 'roll', 'argsort', 'fromkeys', 'shuffle', 'permutation'}
+ORDER_KEEPING = {'list', 'tuple', 'asarray', 'array', 'copy', 'ascontiguousarray'}
+
+
+def passthrough_kind(value, param):
+    """how a stored configuration value relates to the caller's argument `param`:
+    'same'     the argument itself, `param if param is not None else <default>` (either orientation), a one-element wrap
+               `[param]` on the branch where it is not a list, or an order-preserving copy;
+    'derived'  a value computed from it that can reorder / drop / repeat / transform elements (sorted, unique, set, reversed,
+               arithmetic, slicing with a step, ...);
+    'unknown'  anything else."""
+    if isinstance(value, ast.Name):
+        return 'same' if value.id == param else 'unknown'
+    if isinstance(value, ast.IfExp):
+        kinds = {passthrough_kind(value.body, param), passthrough_kind(value.orelse, param)}
+        consts = [b for b in (value.body, value.orelse) if isinstance(b, ast.Constant)]
+        wraps = [b for b in (value.body, value.orelse) if isinstance(b, (ast.List, ast.Tuple)) and len(b.elts) == 1 and norm(b.elts[0]) == param]
+        if consts or wraps:
+            other = [b for b in (value.body, value.orelse) if b not in consts and b not in wraps]
+            if not other:
+                return 'unknown'
+            return passthrough_kind(other[0], param)
+        if kinds == {'same'}:
+            return 'same'
+        return 'derived' if 'derived' in kinds else 'unknown'
+    if isinstance(value, ast.Call):
+        name = norm(value.func).split('.')[-1]
+        args = list(value.args)
+        recv = value.func.value if isinstance(value.func, ast.Attribute) else None
+        inner = None
+        if args and norm(args[0]) == param:
+            inner = args[0]
+        elif recv is not None and norm(recv) == param:
+            inner = recv
+        elif args and isinstance(args[0], (ast.Call, ast.IfExp)):
+            k = passthrough_kind(args[0], param)
+            if k != 'unknown':
+                return 'derived' if (k == 'derived' or name in ORDER_CHANGING) else ('same' if name in ORDER_KEEPING else 'unknown')
+        if inner is not None:
+            if name in ORDER_CHANGING:
+                return 'derived'
+            if name in ORDER_KEEPING and len(args) <= 1:
+                return 'same'
+            if name == 'astype':
+                return 'derived'
+        return 'unknown'
+    if isinstance(value, (ast.BinOp, ast.UnaryOp)) and any(isinstance(n, ast.Name) and n.id == param for n in ast.walk(value)):
+        return 'derived'
+    if isinstance(value, ast.Subscript) and norm(value.value) == param:
+        sl = value.slice
+        if isinstance(sl, ast.Slice) and sl.lower is None and sl.upper is None and (sl.step is None or const_value_(sl.step) == 1):
+            return 'same'
+        return 'derived'
+    return 'unknown'
+
+
+def const_value_(node):
+    if isinstance(node, ast.Constant):
+        return node.value
+    if isinstance(node, ast.UnaryOp) and isinstance(node.op, ast.USub) and isinstance(node.operand, ast.Constant):
+        return -node.operand.value
+    return None
